@@ -410,6 +410,9 @@ func c11(r *Run) {
 			src := &net.UDPAddr{IP: base.IP, Port: base.Port}
 			if ch.Chance(1, 2, "srcport") {
 				src.Port = 1 + r.Rng.Intn(65535)
+				if r.Rng.Intn(8) == 0 {
+					src.Port = []int{1, 1024, 65534, 65535}[r.Rng.Intn(4)]
+				}
 			}
 			tok, ok := tokenOf(ask(r, conn, src, Query("get_peers", fmt.Sprintf("t%d", op), benc.Dict{{K: "id", V: string(id[:])}, {K: "info_hash", V: string(ih[:])}})))
 			if !ok {
@@ -424,6 +427,9 @@ func c11(r *Run) {
 				r.Probe("decoy-target-key")
 			}
 			port := 1 + r.Rng.Intn(65535)
+			if r.Rng.Intn(8) == 0 {
+				port = []int{1, 2, 1023, 1024, 32767, 32768, 65534, 65535}[r.Rng.Intn(8)] // the edges of the port range
+			}
 			implied := false
 			switch ch.Intn(3, "portmode") {
 			case 0:
